@@ -23,8 +23,8 @@ Definition obs_is (o : obs) (out : string) (code : nat) : bool :=
    5 = the model ran out of fuel (generator produced a too long run) *)
 Definition check_case (c : case) : list nat :=
   let '(p, out, code, cl) := c in
-  let mi := run_impl FUEL p in
-  let mr := run_ref FUEL p in
+  let mi := run_impl no_catch FUEL p in
+  let mr := run_ref no_catch FUEL p in
   (if obs_is mi out code then [] else [1%nat]) ++
   (if obs_is mr out code then [] else [2%nat]) ++
   (if wf p then [] else [3%nat]) ++
@@ -32,4 +32,4 @@ Definition check_case (c : case) : list nat :=
   (match snd mi with EndFuel => [5%nat] | _ => [] end).
 
 (* for replays: both observations side by side *)
-Definition show_case (p : prog) := (run_impl FUEL p, run_ref FUEL p, wf p, clean p).
+Definition show_case (p : prog) := (run_impl no_catch FUEL p, run_ref no_catch FUEL p, wf p, clean p).
